@@ -1564,7 +1564,14 @@ func (self *_parser) reinterpretAsObjectAssignmentPattern(l *ast.ObjectLiteral) 
 				return &ast.BadExpression{From: l.Idx0(), To: l.Idx1()}
 			}
 			// TODO make sure there is no trailing comma
-			rest = prop.Expression
+			switch prop.Expression.(type) {
+			case *ast.Identifier, *ast.DotExpression, *ast.PrivateDotExpression, *ast.BracketExpression:
+				rest = self.reinterpretAsDestructAssignTarget(prop.Expression)
+			default:
+				// the rest element of an object assignment pattern is a simple target, not a pattern
+				self.error(prop.Expression.Idx0(), "Invalid destructuring assignment target")
+				return &ast.BadExpression{From: l.Idx0(), To: l.Idx1()}
+			}
 			value = value[:i]
 			ok = true
 		}
